@@ -379,7 +379,7 @@ func c15pairCount(env *core.Env) int {
 }
 
 func c15schedCount(env *core.Env) int {
-	return c15pairCount(env)/40 + 1 + len(c15observerPrograms()) + env.Pick(60, 1500)
+	return c15pairCount(env)/40 + 1 + len(c15observerPrograms()) + env.Pick(200, 3000)
 }
 
 // c15observerPrograms: one goroutine performs a single mutating operation, the other looks twice (at the two names
